@@ -375,8 +375,53 @@ func ite(c, a, b string) string {
 	return "(ite " + c + " " + a + " " + b + ")"
 }
 
+// splitTop3 splits "(op a b c)" into its three top-level arguments (for op = store).
+func splitStore(t string) (a, i, v string, ok bool) {
+	if !strings.HasPrefix(t, "(store ") || !strings.HasSuffix(t, ")") {
+		return
+	}
+	body := t[len("(store ") : len(t)-1]
+	var parts []string
+	d, start, inBar, inStr := 0, 0, false, false
+	for k := 0; k < len(body); k++ {
+		c := body[k]
+		switch {
+		case inStr:
+			if c == '"' {
+				inStr = false
+			}
+		case inBar:
+			if c == '|' {
+				inBar = false
+			}
+		case c == '"':
+			inStr = true
+		case c == '|':
+			inBar = true
+		case c == '(':
+			d++
+		case c == ')':
+			d--
+		case c == ' ' && d == 0:
+			parts = append(parts, body[start:k])
+			start = k + 1
+		}
+	}
+	parts = append(parts, body[start:])
+	if len(parts) != 3 {
+		return
+	}
+	return parts[0], parts[1], parts[2], true
+}
+
 func sel(a string, idx ...string) string {
 	for _, i := range idx {
+		// select(store(a, i, v), i) = v
+		if sa, si, sv, ok := splitStore(a); ok && si == i {
+			_ = sa
+			a = sv
+			continue
+		}
 		a = "(select " + a + " " + i + ")"
 	}
 	return a
